@@ -12,7 +12,7 @@ ENV = dict(os.environ, GOFLAGS="-mod=mod", GOPROXY="off")
 
 def sh(cmd, cwd=None, timeout=1500):
     try:
-        p = subprocess.run(cmd, cwd=cwd, env=ENV, stdout=subprocess.PIPE, stderr=subprocess.STDOUT, text=True, timeout=timeout)
+        p = subprocess.run(cmd, cwd=cwd, env=ENV, stdout=subprocess.PIPE, stderr=subprocess.STDOUT, text=True, errors="replace", timeout=timeout)
         return p.returncode, p.stdout
     except subprocess.TimeoutExpired:
         return 124, "timeout"
